@@ -36,6 +36,7 @@ func main() {
 		vlib.Group{Name: "factor-at", Gen: genFactorAt},
 		vlib.Group{Name: "zero", Gen: genZero},
 		vlib.Group{Name: "empty", Gen: genEmpty},
+		vlib.Group{Name: "large", Gen: genLarge},
 	)
 	vlib.Main("C04", groups...)
 }
